@@ -204,6 +204,21 @@ public:
     for (size_t i = 1; i < threads_.size(); ++i)
       if (threads_[i]->st != LThread::DONE)
         all_done = false;
+    if (!all_done)
+    {
+      // A logical thread outlived the scenario (a worker that was never joined, a detached
+      // thread).  Its pooled OS thread is parked on state owned by this scheduler, so the
+      // process cannot continue with another scenario: report and stop.
+      Failure f;
+      f.kind = End::kDeadlock;
+      f.what = "a thread started by the code under test was still alive when the scenario ended (";
+      for (auto &t : threads_)
+        f.what += "t" + std::to_string(t->id) +
+                  (t->st == LThread::DONE ? ":done " : t->st == LThread::RUN ? ":runnable " : ":blocked ");
+      f.what += "): not joined before destruction / Shutdown returned";
+      fatal_(f);
+      std::abort();
+    }
     active() = nullptr;
     tl_self  = nullptr;
     if (all_done)
